@@ -1269,6 +1269,25 @@ func c06aScriptName(c *Ctx, fn *ssa.Function) {
 						okRoot = true
 					}
 				}
+				// ... possibly through a constructor that is handed the name and stores it
+				if !okRoot {
+					for _, cj := range callsIn(caller) {
+						g := callee(cj)
+						if g == nil || !c.W.InRepo(g) || len(g.Blocks) == 0 {
+							continue
+						}
+						for j, a := range cj.Common().Args {
+							if (a != arg && c.term(caller, a) != at) || j >= len(g.Params) {
+								continue
+							}
+							for _, st := range storesToField(g, "ast", "Identifier", "Value") {
+								if st.Val == ssa.Value(g.Params[j]) {
+									okRoot = true
+								}
+							}
+						}
+					}
+				}
 				c.Check(okRoot, key, c.W.Pos(ci.Pos()), "the script name handed in is the name the script statement gets", caller.Name()+" starts parsing a script body under the name "+pretty(at)+", which is not the name it gives the script: labels of inline texts and movements would not be derived from their script's name")
 			}
 		}
